@@ -204,51 +204,60 @@ fn m(r: usize, c: usize) -> DenseMatrix<f64> {
     DenseMatrix::fill(r, c, 1.0)
 }
 
-// @vp name=c03_shape_binary_ops prop=C03 tier=quick t=480 fns=DenseMatrix::add,sub,mul,div,add_mut,sub_mut,mul_mut,div_mut size=2x3|3x2,2x3|2x2,2x2|2x3,1x3|2x3,2x3|1x3,2x3|1x6 dom=op+pair-symbolic expect=panic
-#[cfg_attr(kani, kani::proof)]
-#[cfg_attr(kani, kani::unwind(9))]
-pub fn c03_shape_binary_ops() {
-    let op = anyu(0, 7);
-    let pair = anyu(0, 5);
-    // every way of differing: both dimensions, columns only, rows only, same size other shape - in both operand orders
-    let (a, b) = match pair {
-        0 => (m(2, 3), m(3, 2)),
-        1 => (m(2, 3), m(2, 2)),
-        2 => (m(2, 2), m(2, 3)),
-        3 => (m(1, 3), m(2, 3)),
-        4 => (m(2, 3), m(1, 3)),
-        _ => (m(2, 3), m(1, 6)),
+// one harness per operand-shape pair (shapes concrete, the operation symbolic): every way of differing - both dimensions,
+// columns only, rows only, same size but other shape - and both operand orders
+macro_rules! shape_binary {
+    ($name:ident, $r1:expr, $c1:expr, $r2:expr, $c2:expr) => {
+        #[cfg_attr(kani, kani::proof)]
+        #[cfg_attr(kani, kani::unwind(9))]
+        pub fn $name() {
+            let op = anyu(0, 7);
+            let a = m($r1, $c1);
+            let b = m($r2, $c2);
+            let mut am = m($r1, $c1);
+            vp_reached!();
+            match op {
+                0 => {
+                    let _ = a.add(&b);
+                }
+                1 => {
+                    let _ = a.sub(&b);
+                }
+                2 => {
+                    let _ = a.mul(&b);
+                }
+                3 => {
+                    let _ = a.div(&b);
+                }
+                4 => {
+                    am.add_mut(&b);
+                }
+                5 => {
+                    am.sub_mut(&b);
+                }
+                6 => {
+                    am.mul_mut(&b);
+                }
+                _ => {
+                    am.div_mut(&b);
+                }
+            }
+            vp_fail!("C03:binary-op-incompatible-shape-not-rejected");
+        }
     };
-    let mut am = a.clone();
-    vp_reached!();
-    match op {
-        0 => {
-            let _ = a.add(&b);
-        }
-        1 => {
-            let _ = a.sub(&b);
-        }
-        2 => {
-            let _ = a.mul(&b);
-        }
-        3 => {
-            let _ = a.div(&b);
-        }
-        4 => {
-            am.add_mut(&b);
-        }
-        5 => {
-            am.sub_mut(&b);
-        }
-        6 => {
-            am.mul_mut(&b);
-        }
-        _ => {
-            am.div_mut(&b);
-        }
-    }
-    vp_fail!("C03:binary-op-incompatible-shape-not-rejected");
 }
+// @vp name=c03_shape_binary_2x3_3x2 prop=C03 tier=quick t=300 fns=DenseMatrix::add,sub,mul,div,add_mut,sub_mut,mul_mut,div_mut size=2x3-op-3x2 dom=op-symbolic expect=panic
+shape_binary!(c03_shape_binary_2x3_3x2, 2, 3, 3, 2);
+// @vp name=c03_shape_binary_2x3_2x2 prop=C03 tier=quick t=300 fns=DenseMatrix::add,sub,mul,div,add_mut,sub_mut,mul_mut,div_mut size=2x3-op-2x2 dom=op-symbolic expect=panic
+shape_binary!(c03_shape_binary_2x3_2x2, 2, 3, 2, 2);
+// @vp name=c03_shape_binary_2x2_2x3 prop=C03 tier=quick t=300 fns=DenseMatrix::add,sub,mul,div,add_mut,sub_mut,mul_mut,div_mut size=2x2-op-2x3 dom=op-symbolic expect=panic
+shape_binary!(c03_shape_binary_2x2_2x3, 2, 2, 2, 3);
+// @vp name=c03_shape_binary_1x3_2x3 prop=C03 tier=quick t=300 fns=DenseMatrix::add,sub,mul,div,add_mut,sub_mut,mul_mut,div_mut size=1x3-op-2x3 dom=op-symbolic expect=panic
+shape_binary!(c03_shape_binary_1x3_2x3, 1, 3, 2, 3);
+// @vp name=c03_shape_binary_2x3_1x3 prop=C03 tier=quick t=300 fns=DenseMatrix::add,sub,mul,div,add_mut,sub_mut,mul_mut,div_mut size=2x3-op-1x3 dom=op-symbolic expect=panic
+shape_binary!(c03_shape_binary_2x3_1x3, 2, 3, 1, 3);
+// @vp name=c03_shape_binary_2x3_1x6 prop=C03 tier=quick t=300 fns=DenseMatrix::add,sub,mul,div,add_mut,sub_mut,mul_mut,div_mut size=2x3-op-1x6 dom=op-symbolic expect=panic
+shape_binary!(c03_shape_binary_2x3_1x6, 2, 3, 1, 6);
 
 // @vp name=c03_shape_products prop=C03 tier=quick t=480 fns=DenseMatrix::matmul,ab size=2x3*2x3-and-flag-variants dom=flags-symbolic expect=panic
 #[cfg_attr(kani, kani::proof)]
